@@ -478,6 +478,43 @@ opcode:
 		set("INTO")
 	case op == 0xcf:
 		set("IRET")
+	case op == 0x6c:
+		in.OpSize = 8
+		set("INSB")
+	case op == 0x6d:
+		set("INSW") // INSW / INSD by OpSize
+	case op == 0x6e:
+		in.OpSize = 8
+		set("OUTSB")
+	case op == 0x6f:
+		set("OUTSW")
+	case op == 0xa4:
+		in.OpSize = 8
+		set("MOVSB")
+	case op == 0xa5:
+		set("MOVSW")
+	case op == 0xa6:
+		in.OpSize = 8
+		set("CMPSB")
+	case op == 0xa7:
+		set("CMPSW")
+	case op == 0xaa:
+		in.OpSize = 8
+		set("STOSB")
+	case op == 0xab:
+		set("STOSW")
+	case op == 0xac:
+		in.OpSize = 8
+		set("LODSB")
+	case op == 0xad:
+		set("LODSW")
+	case op == 0xae:
+		in.OpSize = 8
+		set("SCASB")
+	case op == 0xaf:
+		set("SCASW")
+	case op == 0xd7:
+		set("XLATB")
 	case op == 0xd4:
 		set("AAM", Operand{Kind: KImm, Imm: int64(d.u8()), Size: 8})
 	case op == 0xd5:
